@@ -27,6 +27,27 @@ def f64():
     torch.set_default_dtype(torch.float64)
 
 
+def give_past(mod, example):
+    """Earlier calls on a module before the call that is compared with the oracle: the same argument structure in float32,
+    bfloat16 and float16 (rejected today - the buffers have another dtype - or computed in that precision; either way the
+    module must come out of it unchanged).  Exceptions are the business of other checks and are ignored here."""
+    def cast(a, dt):
+        if isinstance(a, torch.Tensor):
+            return torch.zeros_like(a, dtype=dt)
+        if isinstance(a, (list, tuple)):
+            return type(a)(cast(v, dt) for v in a)
+        return a
+    for dt in (torch.float32, torch.bfloat16, torch.float16):
+        if isinstance(example, torch.Tensor) and example.dtype == dt:
+            continue
+        try:
+            with torch.no_grad():
+                mod(cast(example, dt))
+        except Exception:   # noqa
+            pass
+    return mod
+
+
 def dense(entries, no, nt, ni):
     a = np.zeros((no, nt, ni), dtype=np.int64)
     for o, t, i, c in entries:
